@@ -55,9 +55,9 @@ type hsCase struct {
 	Offers   string `json:"offers"`
 	// Long = 1: the fourth field is padded with spaces so that the first 64 KiB of the line are a line of their own
 	// (four fields); the rest of the line follows. LogBuf > 0: PluginLogBufferSize, with a Unix address longer than it.
-	Long   int `json:"long,omitempty"`
-	LogBuf int `json:"log_buf,omitempty"`
-	Raw      string `json:"raw,omitempty"` // set by the driver: the concrete line
+	Long   int    `json:"long,omitempty"`
+	LogBuf int    `json:"log_buf,omitempty"`
+	Raw    string `json:"raw,omitempty"` // set by the driver: the concrete line
 }
 
 var (
